@@ -12,7 +12,7 @@ from pyvc.contract import bounded
 
 # ====================================================================== C19
 @bounded('syx-roundtrip', ('C19',), 'message lists of length 0..6 mixing sysex (payload lengths 0,1,2,127,128,1000,5000) and non-sysex messages x binary/plaintext; '
-         'plaintext re-laid-out with spaces, tabs, newlines, CRLF, no trailing newline; non-hex text; files not starting with F0; 150 (1500 thorough) trials')
+         'plaintext re-laid-out with spaces, tabs, newlines, CRLF, no trailing newline; one file of 3000 messages per format; non-hex text; files not starting with F0; 150 (1500 thorough) trials')
 def syx_roundtrip(tier, seed, only=None):
     import mido
     rng = random.Random(seed)
@@ -51,6 +51,15 @@ def syx_roundtrip(tier, seed, only=None):
                     ok, detail = False, repr(ex)
                 if not ok:
                     fails.append(dict(clause='read_syx_file(write_syx_file(msgs)) == the sysex messages of msgs', inputs=dict(seed=seed, trial=trial, plaintext=plaintext), detail=detail[:300]))
+        # many messages in one file (the reader parses the whole file before it hands anything out)
+        many = [mido.Message('sysex', data=[i % 128, (i // 128) % 128]) for i in range(3000)]
+        for plaintext in (False, True):
+            n += 1
+            mido.write_syx_file(path, many, plaintext=plaintext)
+            got = mido.read_syx_file(path)
+            if got != many:
+                fails.append(dict(clause='read_syx_file(write_syx_file(msgs)) == the sysex messages of msgs', inputs=dict(messages=3000, plaintext=plaintext),
+                                  detail='%d messages came back, first %r' % (len(got), got[:1])))
         for bad in (b'F0 0G F7', b'F0 1 F7', b'hello', b'F0 00 F', b'0xF0 00 F7'):
             n += 1
             open(path, 'wb').write(bad)
